@@ -190,6 +190,8 @@ TRANSPARENT_METHODS = (
     "core::option::Option::<&T>::copied",
     "core::option::Option::<T>::copied",
     "core::result::Result::<T, E>::inspect_err",
+    "core::option::Option::<core::result::Result<T, E>>::transpose",
+    "core::result::Result::<core::option::Option<T>, E>::transpose",
     "alloc::string::String::as_str",
     "alloc::boxed::Box::<T>::new",
     "alloc::boxed::Box::<T>::pin",
